@@ -208,12 +208,17 @@ namespace occa {
   //   include_paths : Array
 
   hash_t kernelHeaderHash(const occa::json &props) {
-    return (
-      occa::hash(props["defines"])
-      ^ props["functions"]
-      ^ props["includes"]
-      ^ props["headers"]
-    );
+    // Hash the properties together with their names so that equal values of
+    // two different properties cannot cancel each other
+    const char *names[] = {"defines", "functions", "includes", "headers"};
+    std::string key;
+    for (const char *name : names) {
+      key += name;
+      key += '=';
+      key += props[name].toString();
+      key += '\n';
+    }
+    return occa::hash(key);
   }
 
   std::string assembleKernelHeader(const occa::json &props) {
